@@ -330,7 +330,7 @@ def run(ctx):
                     else:
                         why.append(last + '()')
                 sd = LB.switch_on_discr(src)
-                if sd and sd[1] == adt_:
+                if sd and sd[1].replace('&', '').split('<')[0] == adt_:
                     names = {int(v['discr']): v['n'] for v in ctx.F.adts[adt_]['variants']}
                     hit = [v for v, b_ in sd[2] if b_ == dst]
                     if hit and all(names.get(v) == 'Nil' for v in hit):
@@ -350,7 +350,7 @@ def run(ctx):
                             found = False
                             for (s2, v2, d2) in _dom3(LB, d[1]):
                                 sd2 = LB.switch_on_discr(s2)
-                                if sd2 and sd2[1] == adt_:
+                                if sd2 and sd2[1].replace('&', '').split('<')[0] == adt_:
                                     hit2 = [v for v, b_ in sd2[2] if b_ == d2]
                                     if hit2 and all(names.get(v) == 'Nil' for v in hit2):
                                         found = True
